@@ -249,4 +249,12 @@ PROPS['C15']['explanation'] += (' C15_canonical_tree_is_unique: the canonical tr
 PROPS['C13']['primary'] = PROPS['C13']['primary'] + [k for k in ('WalkGenuine', 'WalkPriority') if k not in PROPS['C13']['primary']]
 PROPS['C13']['secondary'] = PROPS['C13']['secondary'] + [k for k in WALK_SECONDARY if k not in PROPS['C13']['secondary']]
 
+_c04 = PROPS['C04']['explanation']
+_cut = _c04.find(' Partial, named: the side-by-side statement')
+PROPS['C04']['explanation'] = (_c04[:_cut] if _cut >= 0 else _c04) + (' SIDE BY SIDE (closed, every history): C04_expansion_texts_are_group_free_templates - each expansion text of an accepted template '
+    'parses to exactly itself (the scanner\'s outputs consist of ordinary bytes and escape pairs only: Proofs/FlatP.v); C04_grouped_template_equals_its_expansions - for a template with optional groups whose '
+    'expansions have pairwise different part sequences, the router holding it and the router into which its expansion texts were inserted one by one with the same data return, for every path and '
+    'constraint predicate, the same match up to relabel: the grouped router reports (template, Some expansion text), the other (expansion text, None), with equal parameters, depth, length, data '
+    '(walk_mapf: the walk only reads the two ranking fields of an info; W_perm; one_by_one_spec). The groups scenario compares the two real routers on the same paths through the oracle W.')
+
 NOT_APPLICABLE = {}
